@@ -131,3 +131,32 @@ class LlcModel(object):
                     return
             except nfc.clf.CommunicationError:
                 return
+
+
+class ExchangeClf(object):
+    """The RF link as a tag object sees it (C16): every exchange() answers with
+    arbitrary bytes or fails with one of the three transient error kinds.
+    Ghost lists record what was sent and how each attempt ended."""
+    OK, TIMEOUT, TRANSMISSION, PROTOCOL = 0, 1, 2, 3
+
+    def __init__(self):
+        self.sent = []
+        self.outcomes = []
+        self.answers = []
+
+    def exchange(self, data, timeout):
+        self.sent.append(bytes(data))
+        kind = nondet_int(0, 3)
+        self.outcomes.append(kind)
+        if kind == 1:
+            raise nfc.clf.TimeoutError("timeout")
+        if kind == 2:
+            raise nfc.clf.TransmissionError("transmission")
+        if kind == 3:
+            raise nfc.clf.ProtocolError("protocol")
+        rsp = nondet_bytearray(0, None)
+        self.answers.append(bytes(rsp))
+        return rsp
+
+    def sense(self, *targets, **options):
+        return None if nondet_bool() else targets[0]
